@@ -129,6 +129,34 @@ package jd
 //@   ensures_bounded ret0 == ""
 //@   carries C18
 
+// The same statements over deterministic pseudo-random pairs (verif_random.go; zipped universes).
+//@ contract verifV1RandRoundTrip
+//@   bounded
+//@   universe a verifRandA(TIER)
+//@   universe b verifRandB(TIER)
+//@   zip a b
+//@   requires validNode(a) && validNode(b) && verifV1Domain(a, b, metadata)
+//@   ensures_bounded ret0 == ""
+//@   carries C17
+
+//@ contract verifV1RandPatch
+//@   bounded
+//@   universe a verifRandA(TIER)
+//@   universe b verifRandB(TIER)
+//@   zip a b
+//@   requires validNode(a) && validNode(b)
+//@   ensures_bounded ret0 == ""
+//@   carries C18
+
+//@ contract verifV1RandMerge
+//@   bounded
+//@   universe a verifRandANF(TIER)
+//@   universe b verifRandBNF(TIER)
+//@   zip a b
+//@   requires validNode(a) && validNode(b)
+//@   ensures_bounded ret0 == ""
+//@   carries C18
+
 //@ contract specSoriEq
 //@   opaque
 //@   trusted
